@@ -253,7 +253,7 @@ func c07Exec(c *engine.Ctx, cs c07Case) {
 			opts = append(opts, geojson.EncodeGeometryWithBBox())
 		}
 		if cs.Opt&2 != 0 {
-			opts = append(opts, geojson.EncodeGeometryWithCRS(&geojson.CRS{Type: "name", Properties: map[string]interface{}{"name": "urn:ogc:def:crs:OGC:1.3:CRS84"}}))
+			opts = append(opts, geojson.EncodeGeometryWithCRS(&geojson.CRS{Type: "name", Properties: map[string]interface{}{"name": "urn:ogc:def:crs:EPSG::3857"}}))
 		}
 		if p, stack := engine.Guard(func() { data, err = geojson.Marshal(t, opts...) }); p != nil {
 			fail("marshal-panic", fmt.Sprintf("Marshal panicked: %v\n%s", p, firstLines(stack, 10)))
@@ -308,7 +308,9 @@ func c07Exec(c *engine.Ctx, cs c07Case) {
 				fail(via+"-ill-formed", werr.Error())
 				return
 			}
-			if d := observeEq(back, exp, ref.EqualOpt{}); d != "" {
+			// (with the CRS option the document names a reference system; whether a reader turns
+			// that into an SRID on the geometry is not the property's business)
+			if d := observeEq(back, exp, ref.EqualOpt{IgnoreSRID: cs.Opt&2 != 0}); d != "" {
 				fail(via+"-unequal", fmt.Sprintf("%s: %s", data, d))
 				return
 			}
